@@ -73,6 +73,13 @@ func (m *SignedMsg) ExtractPubKey() (crypto.PubKey, ID, error) {
 	if err != nil {
 		return nil, fromPeerID, err
 	}
+	// The sender must be the ID derived from its key, in its one text form. Any
+	// other encoding of the same key (non-minimal varints, reordered, repeated or
+	// unknown key fields) would verify with the same signature while changing the
+	// claimed sender and with it the message ID.
+	if !fromPeerID.MatchesPublicKey(pubKey) || IDB58Encode(fromPeerID) != m.GetFromPeerId() {
+		return nil, fromPeerID, ErrPeerIDNotCanonical
+	}
 	return pubKey, fromPeerID, nil
 }
 
